@@ -171,6 +171,24 @@ func buildCatalogue() []item {
 			return append(out, tc, c[len(c)-1])
 		})
 	})
+	add("root-reissued-twin-with-foreign-aki-before-root", false, rootOnly, func(d *desc, pos int) {
+		// another edition of the root (same subject and key, other serial, also
+		// self-signed) sits in front of the root: a second self-signed certificate
+		spec := d.specs[pos]
+		d.post = append(d.post, func(c []*x509.Certificate) []*x509.Certificate {
+			twin := *spec
+			twin.Serial = new(big.Int).Add(c[len(c)-1].SerialNumber, big.NewInt(501))
+			// the twin names an authority key identifier unlike its own subject key
+			// identifier (identifiers are hints; it is self-signed all the same)
+			twin.AKI = []byte("an-authority-key-id-of-another-key")
+			tc, err := pki.Issue(&twin, nil, nil)
+			if err != nil {
+				return c
+			}
+			out := append([]*x509.Certificate{}, c[:len(c)-1]...)
+			return append(out, tc, c[len(c)-1])
+		})
+	})
 	// the chain ends in a self-signed X.509 version 1 certificate (no extensions:
 	// no basic constraints, no key usage) with the root's name and key
 	add("root-is-x509-version-1", false, rootOnly, func(d *desc, pos int) {
@@ -206,6 +224,30 @@ func buildCatalogue() []item {
 			twin := *spec
 			twin.IssuerCN, twin.SignedBy = nil, nil
 			twin.Serial = new(big.Int).Add(c[pos].SerialNumber, big.NewInt(700))
+			tc, err := pki.Issue(&twin, nil, nil)
+			if err != nil {
+				return c
+			}
+			out := append([]*x509.Certificate{}, c[:pos]...)
+			out = append(out, tc)
+			return append(out, c[pos:]...)
+		})
+	})
+	// self-issued but not self-signed: the CA carries the same name as the CA
+	// that certified it (another key)
+	add("self-signed-twin-with-foreign-aki-inserted-below-a-ca", false, midOnly, func(d *desc, pos int) {
+		// a self-signed edition of the CA at pos (same subject and key) is put in
+		// front of it: every link still verifies by name and key, but a
+		// self-signed certificate now sits in the middle of the chain
+		spec := d.specs[pos]
+		d.post = append(d.post, func(c []*x509.Certificate) []*x509.Certificate {
+			if pos >= len(c) {
+				return c
+			}
+			twin := *spec
+			twin.IssuerCN, twin.SignedBy = nil, nil
+			twin.Serial = new(big.Int).Add(c[pos].SerialNumber, big.NewInt(701))
+			twin.AKI = []byte("an-authority-key-id-of-another-key")
 			tc, err := pki.Issue(&twin, nil, nil)
 			if err != nil {
 				return c
